@@ -9,7 +9,20 @@ from gen_programs import Gen, Scope
 
 PID = "C02"
 MANIFEST = {
-    "text": "22 Coq theorems.  'No effect on values' at full strength over the evaluator model: STORE-EXTENSION INVARIANCE "
+    "text": "34 Coq theorems.  LET round: WELL-FORMEDNESS (the scope chain mentions existing function cells only) IS AN "
+            "INVARIANT — preserved by every evaluation (every expression form, FunctionDef::call, every depth), every result "
+            "mentions existing cells only; generic in operators/built-ins that create no dangling cell, discharged for "
+            "binop_impl, builtin_impl and builtin_full (C02_cfg_wf_preserved*, C02_ops_create_no_dangling_cell) — hence it "
+            "holds after ANY statement sequence from the initial configuration and EVAL-TWICE needs no hypothesis on the "
+            "configuration there (C02_eval_twice_after_any_program[_fullbi]).  LET-ABSTRACTION is now proved for SEQUENTIAL "
+            "contexts (C02_let_abstraction_seq_partial[_fullbi], _generic, _success): the occurrence may come after arbitrary "
+            "assignment-free siblings (allocating cells, calling functions, failing), in any call argument / list item / "
+            "right operand / index / callee, in a conditional branch taken or not taken; still PARTIAL: one occurrence, "
+            "outside lambdas and do-blocks, cell-free value (kept: C02_let_abstraction_full), and stated in the scope that "
+            "already binds x (the two-statement law C02_let_program_full needs the weakening lemma C02_weakening_full: a "
+            "binding of a name nothing mentions changes nothing — both kept as Props).  Searched on the implementation by "
+            "the new stream LET-SEQ (non-head positions by class: after allocating siblings, call arguments, branches taken "
+            "/ not taken, right operands of and/or/coalesce, nested).  Earlier rounds: 'No effect on values' at full strength over the evaluator model: STORE-EXTENSION INVARIANCE "
             "(a simulation over every expression form, FunctionDef::call and every depth: evaluating from a store related "
             "by an injective renaming of function-cell indices gives the renamed outcome, scope chain and a related store; "
             "generic in operators/built-ins that commute with renamings, discharged arm by arm for the transcribed "
@@ -337,6 +350,89 @@ def main(argv):
                                   {"kind": "impl-law", "program": t, "observed": [vt[-2], vt[-1]]})
     res.streams["LET-TWICE"] = {"pairs": n_let, "let_checked": let_checked, "let_violations": let_viol,
                                 "twice_checked": twice_checked, "twice_violations": twice_viol, "holes": len(HOLES)}
+
+    # ---------------- (c') LET-SEQ: let-abstraction with the occurrence at NON-HEAD positions (the context class of
+    # C02_let_abstraction_seq_partial, Coq `sctx`, and beyond it: do-blocks / lambdas called once): after siblings that
+    # allocate cells and call functions, inside call arguments, in conditional branches taken / not taken, in right
+    # operands of and / or / coalesce.  Law on the implementation: when the abstraction statement `t9fresh = s` succeeds,
+    # `C[t9fresh]` and `C[s]` have the same outcome (same value up to function names, or both fail); in particular
+    # "C[s] succeeds => t9fresh = s; C[t9fresh] succeeds with the same value".
+    SEQ_CTX = {
+        "after_allocating_sibling": ["[(a9 => a9), %s][1]", "[map([1, 2], a9 => a9 + 1), %s]", "{j: (a9 => a9), k: %s}.k",
+                                     "[[1, {a: 2}], (a9 => [a9]), %s]", "[(a9 => a9)(1)] == [%s]",
+                                     "[sort_by([2, 1], a9 => a9), %s, (b9 => b9)]"],
+        "call_argument": ["((a9, b9) => [b9, a9])((c9 => c9)(1), %s)", "((a9, b9, c9) => c9)(1, [2], %s)",
+                          "reduce([1], (a9, q9) => a9, %s)", "((a9, b9) => b9)(sort([3, 1]), %s)",
+                          "typeof(((a9, b9) => b9)((c9 => c9), %s))"],
+        "branch_taken": ["if 1 < 2 then %s else 0", "if [1] == [(a9 => 1)(0)] then [0, %s] else 0",
+                         "if (a9 => true)(0) then {k: %s} else 0"],
+        "branch_not_taken": ["if 1 > 2 then %s else 7", "if false then [%s] else (a9 => a9)(7)",
+                             "if (a9 => false)(0) then %s else [(b9 => b9)]"],
+        "right_operand_and_or_coalesce": ["false && (%s)", "true || (%s)", "true && (%s)", "false || (%s)", "null ?? (%s)",
+                                          "1 ?? (%s)", "(a9 => null)(0) ?? (%s)"],
+        "nested": ["[0, if true then ((a9, b9) => b9)((c9 => c9), [1, %s]) else 0]",
+                   "{k: [(a9 => a9), if 2 > 1 then %s else 0]}.k[1]"],
+    }
+    n_seq = 30 if tier == "quick" else 3000
+    g3 = Gen(rng, allow_fail=False)
+    seq = []
+    sub_kinds = {}
+    SEQ_FIXED = [("", "{k: 1}", "record"), ("", "(x => x + 1)", "fn"), ("k9 = 3\n", "(x => x + k9)", "closure"),
+                 ("k9 = 3\n", "[1, y => [y, k9]]", "list_with_closure"), ("", "[1, 0 / 0]", "nan_list"),
+                 ("", "(1 / 0 > 0)", "bool"), ("", "null", "null"), ("nm9 = x => x + 1\n", "nm9", "named_fn"),
+                 ("", "do {\n  w9 = 2\n  return [w9, (a9 => a9)]\n}", "do_block")]
+    KNAMES = ["num", "bool", "string", "numlist", "record", "fn"]
+    cases = [(pre.replace("\\n", "\n"), sub.replace("\\n", "\n"), kind) for pre, sub, kind in SEQ_FIXED]
+    for _ in range(n_seq):
+        sc = Scope()
+        sc.vars["inputs"] = "rec"
+        prefix = []
+        for _ in range(rng.below(4)):
+            st_ = g3.statement(sc)
+            if st_.startswith("output") or "nosuch" in st_:
+                continue
+            prefix.append(st_)
+        kind = rng.below(6)
+        sub = [g3.num, g3.boolean, g3.string, g3.numlist, lambda s_, d_: g3.record(s_, d_), g3.fn1][kind](sc, 2)
+        cases.append(("".join(p_ + "\n" for p_ in prefix), sub, KNAMES[kind]))
+    for pre, sub, kind in cases:
+        sub_kinds[kind] = sub_kinds.get(kind, 0) + 1
+        for cls, ctxs in sorted(SEQ_CTX.items()):
+            for ctx in ctxs:
+                seq.append((cls, kind, pre + (ctx % sub), pre + "t9fresh = " + sub + "\n" + (ctx % "t9fresh"), sub))
+    flat = []
+    for _, _, o, v, _ in seq:
+        flat += [o, v]
+    outs = es.rust_eval(h, flat)
+    seq_checked = {}
+    seq_both_ok = {}
+    seq_skipped = seq_viol = 0
+    for k, (cls, kind, o, v, sub) in enumerate(seq):
+        ro, rv = outs[2 * k], outs[2 * k + 1]
+        for r_ in (ro, rv):
+            if "PANIC" in r_ or r_.startswith("ABORT"):
+                res.violation("the evaluator panicked/aborted", {"kind": "impl", "program": o, "observed": r_})
+        vo = ro.split(";ENV:")[0].split("|")
+        vv = rv.split(";ENV:")[0].split("|")
+        if not (len(vv) >= 2 and vv[-2].startswith("OK") and len(vv) == len(vo) + 1):
+            seq_skipped += 1          # the prefix or the abstraction statement itself failed
+            continue
+        seq_checked[cls] = seq_checked.get(cls, 0) + 1
+        if vo[-1].startswith("OK") and vv[-1].startswith("OK"):
+            seq_both_ok[cls] = seq_both_ok.get(cls, 0) + 1
+        if strip_names(vo[-1]) != strip_names(vv[-1]):
+            seq_viol += 1
+            if seq_viol <= 3:
+                res.violation("binding a subexpression at a non-head position (%s) to a fresh name and using the name in its "
+                              "place changed the result" % cls,
+                              {"kind": "impl-law", "program": o, "variant": v, "subexpression": sub, "context_class": cls,
+                               "observed": [vo[-1], vv[-1]], "rerun": "./check C02 --replay <this file>"})
+    res.streams["LET-SEQ"] = {"programs": 2 * len(seq), "pairs": len(seq),
+                              "contexts_per_class": {cls: len(ctxs) for cls, ctxs in SEQ_CTX.items()},
+                              "checked_per_class": seq_checked, "both_succeed_per_class": seq_both_ok,
+                              "subexpression_kinds": sub_kinds, "skipped_abstraction_or_prefix_failed": seq_skipped,
+                              "violations": seq_viol,
+                              "law": "t9fresh = s succeeds => outcome(C[t9fresh]) == outcome(C[s]) up to function names"}
 
     # ---------------- (d) the boundary the eval-twice theorem singles out (hypothesis old_names_kept):
     # an expression that NAMES a function cell which existed before it and had no name yet.  Class F52 (known
